@@ -46,6 +46,13 @@ def _run_one(args) -> Tuple[str, str, str, str]:
     if overrides is None:
         return name, "skipped", "", "anchor text not present in the current tree"
     status, obligations, msg = evaluate(m["prop"], repo_root, overrides)
+    # known findings are not failures of a benign twin and do not count as the expected violation
+    from .report import load_known
+
+    known = {(k["property"], k["key"]) for k in load_known().get("known", [])}
+    obligations = [o for o in obligations if not (o.status == VIOLATION and (m["prop"], o.key) in known)]
+    if status == "violation" and not any(o.status == VIOLATION for o in obligations):
+        status = "pass" if not msg else "error"
     expect = m["expect"]
     if expect == "violation":
         if status != "violation":
